@@ -151,6 +151,11 @@ def phase_script(draw):
     expect_reject = False
     if has_loop:
         body = [DEV[k][0] for k in info["loop_devices"]]
+        if "led" in kinds and where["led"] == "pro" and draw(st.integers(0, 3)) == 0:
+            # the same name declared before the loop on one pin and re-bound at the top of the body to another pin: both pins need their configuration
+            body.append("led = Led(45)")
+            pins[45] = 1
+            info["rebound"] = True
         marker(body, info["loop_markers"])
         if info["counter"]:
             body += ["cnt = cnt + 1", "mon.write(cnt)"]
